@@ -314,6 +314,8 @@ def r_traj(ctx, a):
     if lf:
         x1 = _state(rng, kind, c, q0)          # a second admissible snapshot
         if hasattr(x1, 'sim_time'): x1 = _map_named(x1, lambda n, v: jnp.asarray(dt) if n == 'sim_time' else v)
+        if kind == 'sw':                       # both snapshots carry the same mean thickness
+            x1 = _map_named(x1, lambda n, v: v.at[..., 0, 0].set(x0.potential[..., 0, 0]) if n == 'potential' else v)
         init = (x0, x1)
     else:
         init = x0
@@ -329,10 +331,10 @@ def r_traj(ctx, a):
         L = dict(_leaves(st)); L0 = dict(_leaves(x0))
         for f in ('vorticity', 'divergence'):
             v = L[f][..., 0, 0]; v0 = L0[f][..., 0, 0]
-            if kind in ('moist', 'cloud'):
-                ctx.oracle_close(f'global mean of {f} never changes', v, v0, scale=typ[f], tol_rel=1e-13)
-            else:
-                ctx.oracle(f'global mean of {f} never changes', bool(np.all(v == v0)), {'k': k, 'after': v, 'before': v0})
+            # not bit-exact in general: np.linalg.inv of the l = 0 implicit matrix leaves O(1e-20) entries in
+            # the (divergence, temperature) block ('split' inverse); moist classes: quadrature rounding
+            ctx.oracle_close(f'global mean of {f} never changes', v, v0, scale=typ[f], tol_rel=1e-12)
+            ctx.count(f'mean_{f}_exact:%d' % int(np.all(v == v0)))
         if kind == 'sw':
             # admissible shallow-water states have zero mean divergence
             ctx.oracle_close('global mean layer thickness (potential) of the shallow-water system is conserved',
